@@ -117,6 +117,9 @@ def cases_for(spec, tier):
     n = len(spec["funcs"])
     has_r1 = any(len(a) == 1 for a in spec["roots"].values())
     yield {"spec": spec, "form": "list", "storage": "dict"}
+    if len(spec["funcs"][0]["internal"]) == 2 and n == 2:
+        yield {"spec": spec, "form": "ndarray", "storage": "file_array", "folder": True}
+        return
     if n == 1 or tier == "thorough" or len(spec["funcs"][1]["params"]) == 1:
         # the same Pipeline object mapped twice with different input sizes
         yield {"spec": spec, "form": "list", "storage": "dict", "reuse": True}
@@ -151,6 +154,19 @@ def specs_for(stage, tier):
         for s in gen_map.pipelines(3, "quick"):
             if len(s["funcs"]) == 3:
                 yield s
+    elif stage == "2-internal-axes-over-x[i]":
+        # quick-tier family with TWO internal axes (of different sizes) on the producer, at every position, and every
+        # consumer pattern (indexed / one ':' / all ':' / whole); the general generator has <= 1 internal axis in quick
+        sizes = dict(gen_map.DEFAULT_SIZES)
+        roots = {"x": ["i"]}
+        for f1 in gen_map.functions_over(roots, "f", [("a",)], {"i"}, ["u", "w"], 2, False, must_use=["x"], vias=("pipefunc",)):
+            if f1["ms"] is None or len(f1["internal"]) != 2:
+                continue
+            s1 = {"roots": roots, "sizes": sizes, "funcs": [f1]}
+            yield s1
+            for f2 in gen_map.functions_over({"a": tuple(f1["out_axes"])}, "g", [("c",)], {"i", "u", "w"}, ["m"], 0, False, must_use=["a"],
+                                             no_ms_internal=False):
+                yield {"roots": roots, "sizes": sizes, "funcs": [f1, f2]}
     elif stage.startswith("sizes-"):
         sz = {"sizes-111": dict.fromkeys("ijkuwm", 1), "sizes-321": {"i": 3, "j": 2, "k": 1, "u": 3, "w": 2, "m": 1},
               "sizes-133": {"i": 1, "j": 3, "k": 3, "u": 1, "w": 3, "m": 3}}[stage]
@@ -158,8 +174,8 @@ def specs_for(stage, tier):
             yield s
 
 
-STAGES = {"quick": ["1-function", "2-functions"], "thorough": ["1-function", "2-functions", "sizes-111", "sizes-321", "sizes-133", "3-functions"]}
-NCHUNK = {"1-function": 16, "2-functions": 240, "3-functions": 2000, "sizes-111": 240, "sizes-321": 240, "sizes-133": 240}
+STAGES = {"quick": ["1-function", "2-functions", "2-internal-axes-over-x[i]"], "thorough": ["1-function", "2-functions", "sizes-111", "sizes-321", "sizes-133", "3-functions"]}
+NCHUNK = {"2-internal-axes-over-x[i]": 16, "1-function": 16, "2-functions": 240, "3-functions": 2000, "sizes-111": 240, "sizes-321": 240, "sizes-133": 240}
 
 
 def plan(tier, seed):
